@@ -15,7 +15,10 @@ CONTRACTS = []
 
 CONTRACTS.append(Contract(
     K + 'unpack_boolean', params={'self': TP, 'data': Str},
-    ensures=[('true-false-or-none', 'result is True or result is False or result is None')],
+    ensures=[('true-false-or-none', 'result is True or result is False or result is None'),
+             ('the-DTD-spellings-decode-to-their-value',
+              "implies(data == 'true' or data == 'TRUE', result is True) and "
+              "implies(data == 'false' or data == 'FALSE', result is False)")],
     raises=PARSE_ERR))
 
 INT_TYPES = '(u|s)int(8|16|32|64)'
